@@ -21,7 +21,9 @@ def main(argv) -> int:
         res["records"] = ctx.records
         res["status"] = "ok"
     except BaseException as e:  # noqa: BLE001
-        res["status"] = "error"
+        # the translator fails CLOSED: source it cannot translate makes the obligation inconclusive, never a verdict and never a
+        # harness error (the other obligations of the property still run and may find the violation)
+        res["status"] = "untranslatable" if type(e).__name__ == "Untranslatable" else "error"
         res["error"] = repr(e)
         res["traceback"] = traceback.format_exc()[-4000:]
     res["wall_s"] = round(time.time() - t0, 3)
